@@ -755,6 +755,9 @@ def run(ctx):
         core(ctx, ctx.repo)
     except PyRaise as e:
         raise AnalysisError("model evaluation raised %s outside a decided clause" % e)
+    # clause 'item lists' (coordinator's addition): the digest / signature sequences of a signer
+    from . import c33_lists
+    c33_lists.run_clause(ctx)
     ctx.floor("magic_tests", 1)
     ctx.floor("flag_inits", 3)
     ctx.floor("size_checks", 1)
